@@ -139,6 +139,7 @@ func verifyFunction(p *Program, fn *ssa.Function, c *FuncContract, emit func(*Ob
 		fe.errorf("no path of %s reaches a return", fn)
 	}
 	fe.checkOnlyClauses()
+	fe.checkReadOnly()
 	fe.checkCallees()
 	fe.checkThreadCallees()
 	// every call-site clause of the contract must have been exercised on some path
@@ -233,6 +234,79 @@ func (fe *FnExec) lockDiscipline(st *State, in ssa.Instruction, access string, k
 	}
 	fe.guardOrd[in]++
 	fe.assert(st, goal, fmt.Sprintf("guard/%s:%s@%s", access, shortFn(key), fe.siteName(in)), "guard", []string{"C16"}, what, in.Pos())
+}
+
+// checkReadOnly: "readonly p" - the function (and the function literals it contains)
+// stores to nothing reached from parameter p through field and element addresses.
+func (fe *FnExec) checkReadOnly() {
+	for ci, rc := range fe.C.ReadOnly {
+		var prm *ssa.Parameter
+		for _, p := range fe.Fn.Params {
+			if p.Name() == rc.Local {
+				prm = p
+			}
+		}
+		tags := rc.Tags
+		if len(tags) == 0 {
+			tags = []string{"support"}
+		}
+		if prm == nil {
+			fe.errorf("readonly names parameter %q, which %s does not have", rc.Local, fe.Fn)
+			continue
+		}
+		var from func(v ssa.Value, fn *ssa.Function, depth int) bool
+		from = func(v ssa.Value, fn *ssa.Function, depth int) bool {
+			if depth > 12 {
+				return false
+			}
+			switch x := v.(type) {
+			case *ssa.Parameter:
+				return x == prm
+			case *ssa.FieldAddr:
+				return from(x.X, fn, depth+1)
+			case *ssa.IndexAddr:
+				return from(x.X, fn, depth+1)
+			case *ssa.UnOp:
+				if x.Op == token.MUL {
+					// a load: of the parameter's own cell (naive form keeps parameters in allocs),
+					// or of a pointer stored inside the object
+					if a, ok := x.X.(*ssa.Alloc); ok {
+						return a.Comment == rc.Local
+					}
+					return from(x.X, fn, depth+1)
+				}
+			case *ssa.FreeVar:
+				// captured variable of a function literal: by name
+				return x.Name() == rc.Local
+			}
+			return false
+		}
+		funcs := append([]*ssa.Function{fe.Fn}, fe.Fn.AnonFuncs...)
+		bad := ""
+		for _, f := range funcs {
+			for _, b := range f.Blocks {
+				for _, in := range b.Instrs {
+					st, ok := in.(*ssa.Store)
+					if !ok {
+						continue
+					}
+					if a, isAlloc := st.Addr.(*ssa.Alloc); isAlloc && a.Comment == rc.Local {
+						continue // re-assigning the parameter variable itself is harmless
+					}
+					if from(st.Addr, f, 0) && bad == "" {
+						bad = fe.pos(in.Pos())
+					}
+				}
+			}
+		}
+		status, raw := "unsat", "no store through "+rc.Local
+		if bad != "" {
+			status, raw = "sat", "the function stores through "+rc.Local+" at "+bad+", which its contract declares read-only"
+		}
+		fe.nObl++
+		fe.emit(&Obligation{Func: shortFn(fe.Fn.String()), Name: fe.oblName(fmt.Sprintf("readonly#%d/%s", ci+1, rc.Local)), Kind: "frame", Tags: tags,
+			Text: raw, Pos: fe.pos(fe.Fn.Pos()), Result: SolverResult{Status: status, Solver: "syntactic", Raw: raw}})
+	}
 }
 
 // checkThreadCallees: a function that may run on a request thread calls only such
@@ -735,6 +809,13 @@ func contractTags(c *FuncContract) []string {
 	for _, t := range c.CalleesTags {
 		if t != "support" {
 			set[t] = true
+		}
+	}
+	for _, rc := range c.ReadOnly {
+		for _, t := range rc.Tags {
+			if t != "support" {
+				set[t] = true
+			}
 		}
 	}
 	for _, cg := range c.CallGhosts {
